@@ -128,6 +128,30 @@ def ray_shape(gtype, pos, R, size, pnt, vec, eps=None):
     return best
 
 
+def origin_surface_distance(gtype, pos, R, size, pnt):
+    """|signed distance| of the ray origin to the surface of the shape (plane: to the plane)"""
+    d = (pnt[0] - pos[0], pnt[1] - pos[1], pnt[2] - pos[2])
+    lp = tuple(R[0][k] * d[0] + R[1][k] * d[1] + R[2][k] * d[2] for k in range(3))
+    if gtype == PLANE:
+        return abs(lp[2])
+    return abs(sdf(gtype, size, lp))
+
+
+def on_seam(gtype, pos, R, size, pnt, vec, x, rel=1e-9, abs_tol=0.0):
+    """True if the point pnt + x vec lies (within rel * size + abs_tol) on the curve where two surface patches of the shape
+    meet: capsule cap/cylinder circle, cylinder rim, box edge or vertex"""
+    d = (pnt[0] + x * vec[0] - pos[0], pnt[1] + x * vec[1] - pos[1], pnt[2] + x * vec[2] - pos[2])
+    q = tuple(R[0][k] * d[0] + R[1][k] * d[1] + R[2][k] * d[2] for k in range(3))
+    tol = rel * max(abs(v) for v in size) + abs_tol
+    if gtype == CAPSULE:
+        return abs(abs(q[2]) - size[1]) <= tol
+    if gtype == CYLINDER:
+        return abs(abs(q[2]) - size[1]) <= tol and abs(math.hypot(q[0], q[1]) - size[0]) <= tol
+    if gtype == BOX:
+        return sum(1 for k in range(3) if abs(abs(q[k]) - size[k]) <= tol) >= 2
+    return False
+
+
 def plane_side(pos, R, pnt, vec):
     """(+1 ray travels towards the front face (against +Z), -1 towards the back face, 0 parallel)"""
     lvz = R[0][2] * vec[0] + R[1][2] * vec[1] + R[2][2] * vec[2]
